@@ -41,7 +41,9 @@ pub fn read_and_cut_bytes<R: Read, W: Write>(
     opt: &Opt,
 ) -> Result<()> {
     let mut buffer: Vec<u8> = Vec::with_capacity(32 * 1024);
-    read_bytes_to_end(stdin, &mut buffer);
+    if let Some(result) = read_bytes_to_end(stdin, &mut buffer) {
+        result?;
+    }
     cut_bytes(&buffer, opt, stdout)?;
     Ok(())
 }
